@@ -1,0 +1,15 @@
+//go:build verif
+
+package lisp
+
+// VerifHook, when non-nil, is called at each simulation yield point with the
+// point's name and a detail string.  It exists only in builds made with the
+// `verif` build tag (the deterministic-simulation harness); production builds
+// do not contain it.
+var VerifHook func(point, detail string)
+
+func verifPoint(point, detail string) {
+	if h := VerifHook; h != nil {
+		h(point, detail)
+	}
+}
